@@ -100,10 +100,17 @@ class PyMachine:
                 e.keyboard._matrix.inject_event(ev[1], release=bool(ev[2]))
             elif k == "save":
                 e.save_snapshot(ev[1])
-            elif k == "load":
+            elif k in ("load", "load_dirty"):
                 import contextlib
                 import io
                 fresh = PyMachine(self.cfg)
+                if k == "load_dirty":
+                    # a machine with a past of its own: it ran another firmware loop that stores to IMR/ISR before it is told to load
+                    dcfg = dict(self.cfg)
+                    dcfg["rom"] = rom_patches(bytes.fromhex("ccfb55ccfc0300001309"), bytes.fromhex("0001"))
+                    fresh = PyMachine(dcfg)
+                    for _ in range(5):
+                        fresh.emu.step()
                 with contextlib.redirect_stdout(io.StringIO()):   # load_snapshot prints a backend-mismatch note for Rust bundles
                     fresh.emu.load_snapshot(ev[1])
                 self.emu = fresh.emu
